@@ -94,6 +94,21 @@ Lemma loadRuleGroup_rules_pinned : gen_loadRuleGroup_rules =
   ["for i := range group.Rules { rule := &group.Rules[i] if err := l.loadRule(group, rule); err != nil { return err } }"].
 Proof. reflexivity. Qed.
 
+(* loadRuleGroup: the group is registered, its import table (m.Import) is a scope that is entered before the rules and left when
+   the function returns -- on the error paths too --, the imports of the group are loaded into it, then the rules *)
+Lemma loadRuleGroup_pinned : gen_body_loadRuleGroup =
+  ["l.group = &GoRuleGroup{ Line: group.Line, Filename: l.filename, Name: group.Name, DocSummary: group.DocSummary, DocBefore: group.DocBefore, DocAfter: group.DocAfter, DocNote: group.DocNote, DocTags: group.DocTags, }";
+   "if l.prefix != """" { l.group.Name = l.prefix + ""/"" + l.group.Name }";
+   "if l.ctx.GroupFilter != nil && !l.ctx.GroupFilter(l.group) { return nil }";
+   "if _, ok := l.res.groups[l.group.Name]; ok { panic(fmt.Sprintf(""duplicated function %s after the typecheck"", l.group.Name)) }";
+   "l.res.groups[l.group.Name] = l.group";
+   "l.itab.EnterScope()";
+   "defer l.itab.LeaveScope()";
+   "for _, imported := range group.Imports { l.itab.Load(imported.Name, imported.Path) }";
+   "for i := range group.Rules { rule := &group.Rules[i] if err := l.loadRule(group, rule); err != nil { return err } }";
+   "return nil"].
+Proof. reflexivity. Qed.
+
 Lemma filterInfo_pinned :
   gen_filterInfo_fields = ["Vars map[string]struct{}"; "group *ir.RuleGroup"] /\
   gen_filterInfo_literals = ["loadRule: filterInfo{ Vars: make(map[string]struct{}), group: group, }"].
